@@ -4,8 +4,6 @@ import (
 	. "verif/harness/lib"
 )
 
-const KeyPfmBounce = "C43-refund-of-forward-back-over-the-arrival-channel-mints-phantom-vouchers"
-
 type pfmExec struct{ env *pfmEnv }
 
 func ints(v any) []int {
@@ -178,11 +176,9 @@ func pfmMonitor(r *Rng, n int, report func(Viol)) {
 		switch res.class {
 		case "refunded":
 			if len(res.diff) > 0 {
-				key := ""
-				if bounce {
-					key = KeyPfmBounce
-				}
-				report(Viol{Property: "C43", Key: key, What: "the sender was refunded but balances / supply / total escrow on some chain did not return to their values before the forward", Input: in, Observed: obs, Requests: []M{{"f": "reset", "engine": "pfm"}, in}})
+				// includes the regression of fix f970a92 (forward back over the arrival channel)
+				_ = bounce
+				report(Viol{Property: "C43", What: "the sender was refunded but balances / supply / total escrow on some chain did not return to their values before the forward", Input: in, Observed: obs, Requests: []M{{"f": "reset", "engine": "pfm"}, in}})
 			}
 		case "delivered":
 			if Bool(in, "failed") {
